@@ -109,3 +109,55 @@ def coq_expr(vs, conn_items, cert, M):
             items.append(f"({q(D)}, [" + "; ".join(f"({w}%nat, {q(m * D)})" for w, m in c) + "])")
         rows.append("[" + "; ".join(items) + "]")
     return V, C, "[" + "; ".join(rows) + "]", q(M)
+
+
+def hull_weights_exact(W, p):
+    """exact convex weights (Fractions, >= 0, sum 1) with  sum w_i W_i = p  for a point p of the hull of the
+    exact points W, or None: a floating-point NNLS proposes the support, the weights are then solved exactly
+    on at most four affinely independent points of it"""
+    n = len(W)
+    Wf = np.array([[float(x) for x in w] for w in W])
+    pf = np.array([float(x) for x in p])
+    sc_ = max(1.0, float(np.max(np.abs(Wf))))
+    A = np.vstack([Wf.T / sc_, 1e3 * np.ones((1, n))])
+    b = np.concatenate([pf / sc_, [1e3]])
+    x, _ = nnls(A, b, maxiter=2000)
+    order = sorted(range(n), key=lambda k: -x[k])
+    tgt = [Fr(v) for v in p] + [Fr(1)]
+    cand_sets = []
+    supp = [k for k in order if x[k] > 1e-12]
+    for r in (4, 3, 2, 1):
+        cand_sets += [list(c) for c in itertools.combinations(supp[:6], r)]
+    for c in cand_sets:
+        cols = [list(W[k]) + [Fr(1)] for k in c]
+        w = _solve_square_any(cols, tgt)
+        if w is not None and all(v >= 0 for v in w):
+            out = [Fr(0)] * n
+            for k, v in zip(c, w):
+                out[k] = v
+            return out
+    return None
+
+
+def _solve_square_any(cols, target):
+    """exact solution of sum w_k cols[k] = target (vectors of length 4, k <= 4 columns) or None"""
+    k = len(cols)
+    m = len(target)
+    M = [[cols[c][r] for c in range(k)] + [target[r]] for r in range(m)]
+    row = 0
+    piv_cols = []
+    for col in range(k):
+        piv = next((r for r in range(row, m) if M[r][col] != 0), None)
+        if piv is None:
+            return None
+        M[row], M[piv] = M[piv], M[row]
+        for r in range(m):
+            if r != row and M[r][col] != 0:
+                f = M[r][col] / M[row][col]
+                M[r] = [a - f * b for a, b in zip(M[r], M[row])]
+        piv_cols.append(col)
+        row += 1
+    for r in range(row, m):
+        if M[r][k] != 0:
+            return None            # inconsistent
+    return [M[i][k] / M[i][i] for i in range(k)]
